@@ -908,8 +908,13 @@ func ruleC05Sem(e *Env, rule string) {
 			return 0, false, false
 		}
 		badDigit := ""
+		digitFn := e.F("uu", "parseDigit")
 		fallback := func(fn *ssa.Function, args []pred.Val) (pred.Val, bool, error) {
-			// the digit function: a function of the module that receives one input byte and returns (value, ok)
+			// the digit function: the one C05.digit tabulates byte class by byte class — any other function of the module
+			// that is handed an input byte (a "fast path" for decimal digits) is evaluated, not believed
+			if digitFn == nil || flow.Origin(fn) != digitFn {
+				return nil, false, nil
+			}
 			k, found := 0, false
 			for _, a := range args {
 				if i, ok := elemIndex(a); ok {
